@@ -627,7 +627,7 @@ static LinkedList *bufr_repl_descriptors
  * removed the skipped flag if it was previously expanded with 0 replication
 
 */
-         desc->flags &= ~FLAG_SKIPPED;
+         desc->flags &= ~(FLAG_SKIPPED|FLAG_IGNORED);
 /*
  * add extra flags to each expanded item
 
